@@ -166,7 +166,7 @@ pub fn worker_handle(req: &Value) -> Value {
             match r {
                 Ok(Ok(t)) => {
                     let got = json!({
-                        "elements": t.elements.values().map(|e| json!([e.name, n4(e.area), n4(e.u), n4(e.w_or_inf), n4(e.g_winter), n4(e.g_summer), n4(e.ang_north), n4(e.tilt), e.id_surf, e.id_space])).collect::<Vec<_>>(),
+                        "elements": t.elements.values().map(|e| json!([e.name, n4(e.area), n4(e.u), n4(e.w_or_inf), n4(e.g_winter), n4(e.g_summer), n4(e.ang_north), n4(e.tilt), e.id_surf, e.id_space, format!("{:?}", e.type_)])).collect::<Vec<_>>(),
                         "spaces": t.spaces.values().map(|s| json!([s.name, s.id_space, s.mult, n4(s.area), n4(s.qint)])).collect::<Vec<_>>(),
                     });
                     json!({"events": [{"ev": "Typed", "src": src, "ok": true, "exp": req["exp"], "got": got}]})
